@@ -36,7 +36,7 @@ TQueryForeign == IsEv("Query") /\ Ev.kind \notin {"live", "interior"} /\ Ev.r # 
 TWrite == IsEv("Write") /\ Ev.r = "Ok" /\
             IF Ev.trunc < 0 THEN WriteOk(Ev.id, Ev.rx, Ev.rw, Ev.len, Obs, Ev.st)
             ELSE ShrinkOk(Ev.id, Ev.trunc, Ev.rx, Ev.rw, Ev.len, Obs, Ev.st)
-TResetAlloc == IsEv("ResetAlloc") /\ ResetOk(Ev.policy, Ev.init, Ev.st)
+TResetAlloc == IsEv("ResetAlloc") /\ ResetOk(Ev.policy, Ev.init, Ev.wiped, Ev.st)
 
 TNext == TReset \/ TAllocOk \/ TAllocRefused \/ TRelease \/ TShrink0 \/ TShrinkOk \/ TShrinkRefused
          \/ TQueryLive \/ TQueryInterior \/ TQueryForeign \/ TWrite \/ TResetAlloc
